@@ -167,11 +167,13 @@ func init() {
 			{Fn: "H_two", Fuel: 20_000_000, Tier: "quick", Reach: []string{"end"}},
 			{Fn: "H_members", Fuel: 20_000_000, Tier: "quick", Reach: []string{"end"}},
 			{Fn: "H_factory", Fuel: 20_000_000, Tier: "quick", Reach: []string{"end"}},
+			{Fn: "H_pair_two", Fuel: 20_000_000, Tier: "quick", Reach: []string{"end"}},
+			{Fn: "H_member_forms", Fuel: 20_000_000, Tier: "quick", Reach: []string{"end"}},
 			{Fn: "H_history", Params: k(2), Fuel: 20_000_000, Tier: "quick", Reach: []string{"end"}},
 			{Fn: "H_history", Params: k(3), Fuel: 20_000_000, Tier: "quick", Reach: []string{"end"}},
 			{Fn: "H_history", Params: k(4), Fuel: 30_000_000, Tier: "thorough", Reach: []string{"end"}},
 		},
-		Rule:    rule + "; every history of k steps over {instantiate Box<int|string|array|U> into one of 2 slots, write a value of kind int|string|array|U into a slot's T-typed property, pass it to a T-typed method parameter}; the script is assembled per path and parsed by the real generic-class parser; expected acceptance is computed per instance from its own type argument; H_members: Pair<K,V> with three typed members touched in every order; H_two: two instantiations alive at once; H_factory: one new-site evaluated three times (factory function / loop body), objects written in every rotation. Structural enumeration through the engine; the int payload is symbolic",
+		Rule:    rule + "; every history of k steps over {instantiate Box<int|string|array|U> into one of 2 slots, write a value of kind int|string|array|U into a slot's T-typed property, pass it to a T-typed method parameter}; the script is assembled per path and parsed by the real generic-class parser; expected acceptance is computed per instance from its own type argument; H_members: Pair<K,V> with three typed members touched in every order; H_two: two instantiations alive at once; H_factory: one new-site evaluated three times (factory function / loop body), objects written in every rotation; H_pair_two: two instantiations of Pair<K,V> over {int,string,U}^2 x {int,string,U}^2 (permuted arguments included), either member of either instance probed with every value kind; H_member_forms: plain / nullable / promoted-constructor / method-parameter / nullable-parameter members of Box<A> against every value kind and null. Structural enumeration through the engine; the int payload is symbolic",
 		Outside: []string{"generic classes with more than two parameters, generic functions", "concurrent instantiation (only sequential orders)", "histories longer than 4"},
 	})
 
